@@ -11,7 +11,7 @@ Set Warnings "-notation-overridden,-ambiguous-paths".
 From mathcomp Require Import all_ssreflect all_algebra all_real_closed.
 From mathcomp Require Import ssrZ.
 Set Warnings "notation-overridden,ambiguous-paths".
-From LP Require Import UPolySpec RefAlgSpec RefAlgLoops RefAlgOps RefAlgDet RefAlgAnn RefAlgArith RefAlgSqfree RefAlgFinal RefAlgRoots RefAlgRat RefAlgPow.
+From LP Require Import UPolySpec RefAlgSpec RefAlgLoops RefAlgOps RefAlgDet RefAlgAnn RefAlgArith RefAlgSqfree RefAlgFinal RefAlgRoots RefAlgRat RefAlgPow RefAlgCmp.
 Import GRing.Theory Num.Theory.
 Local Open Scope ring_scope.
 
@@ -318,3 +318,15 @@ Theorem Base_rn_pow_direct : forall (R : rcfType) (fuel : nat) (x z : rnum) (a :
   rn_denotes x a -> rn_pow_direct fuel x n = Some z -> rn_denotes z (a ^+ n).
 Proof. exact: rn_pow_direct_spec. Qed.
 Print Assumptions Base_rn_pow_direct.
+
+(* extended values: -inf < every number < +inf, finite numbers by Base_rn_cmp *)
+Theorem Base_xv_cmp : forall (R : rcfType) (fuel : nat) (u v : xval) (a b : R) (s : Z),
+  xv_denotes u a -> xv_denotes v b -> xv_cmp fuel u v = Some s ->
+  match u, v with
+  | XFin _, XFin _ => zr s = Num.sg (a - b)
+  | XMinf, XMinf | XPinf, XPinf => s = Z0
+  | XMinf, _ | _, XPinf => s = Zneg xH
+  | _, _ => s = Zpos xH
+  end.
+Proof. exact: xv_cmp_spec. Qed.
+Print Assumptions Base_xv_cmp.
